@@ -72,8 +72,7 @@ BASIS = {"readingLenF9": "openFinding", **{r: "mechanical" for r in ("fixedLenSe
          **{r: "trusted" for r in ("hashNotIterated", "setMembershipOnly", "setIntHash", "idTextEqOnly")}}
 EXE = "drv_c03"
 SKIP = {"bad_primaite_session", "no_nodes_links_agents_network", "eval_only_primaite_session", "multi_agent_session", "data_manipulation_marl"}
-# quick: the shipped port-scan scenario is played in thorough only; port scans are in the generated scenario's action maps
-QUICK = ["nmap_ping_scan_red_agent_config", "data_manipulation"]
+QUICK = ["nmap_ping_scan_red_agent_config", "data_manipulation", "nmap_port_scan_red_agent_config"]
 
 
 # ------------------------------------------------------------------------------------------------ inventory cross-check
@@ -112,6 +111,7 @@ def _n_actions(cfg: Dict) -> int:
 
 
 CASE_WALL: List[Tuple[str, float]] = []
+SERVERS: Optional[xproc.Servers] = None  # fork servers (one per PYTHONHASHSEED) of the current run; None = one fresh interpreter per worker
 SEED_BIG = 2 ** 32 - 1  # the largest value numpy's global generator accepts
 
 
@@ -306,7 +306,7 @@ def cases(ctx: Ctx, search: bool = False):
             if cfg["game"].get("seed") in (None, -1):
                 cfg["game"]["seed"] = rng.range(2, 10 ** 6)  # the property speaks of a CONFIGURED seed
             stochastic = name in ("data_manipulation",) or ctx.thorough
-            k = ctx.scale(6, 14) if stochastic else ctx.scale(3, 10)
+            k = ctx.scale(8, 14) if stochastic else ctx.scale(4, 10)
             yield name, "shipped-map", cfg, gen_ops(rng.fork(name), _n_actions(cfg), k, cfg["game"]["seed"], 0,
                                                     short=(not ctx.thorough and not stochastic))
             if (ctx.thorough and idx % 2 == 0) or name == "data_manipulation":  # thorough: a generated action map for every second scenario
@@ -318,7 +318,7 @@ def cases(ctx: Ctx, search: bool = False):
                 if aug is not None:
                     aug = _small_scan(aug)
                     yield name, "generated-map", aug, gen_ops(rng.fork(name + "-augops"), _n_actions(aug), ctx.scale(8, 18), aug["game"]["seed"], 0,
-                                                              short=not ctx.thorough)
+                                                              short=(not ctx.thorough and not stochastic))
     # the same scenarios with every optional process-wide section left out (played after a history that set them)
     if not search:
         for name in (["data_manipulation"] if not ctx.thorough else ["data_manipulation", "uc7_config", "action_penalty", "shared_rewards",
@@ -347,7 +347,7 @@ def cases(ctx: Ctx, search: bool = False):
             cfg = tap_variant(base, r)
             cfg["game"]["seed"] = r.range(2, 10 ** 6)
             yield name, f"stochastic-tap-{i}", cfg, gen_ops(r, _n_actions(cfg), ctx.scale(10, 20), cfg["game"]["seed"], ctx.scale(0, 1),
-                                                            short=(not ctx.thorough and name != "uc7_config"))
+                                                            short=(not ctx.thorough and not stochastic))
     for i in range(ctx.scale(1, 4) if not search else 2):
         r = rng.fork(f"generated-{i}")
         try:
@@ -358,24 +358,30 @@ def cases(ctx: Ctx, search: bool = False):
             continue
         cfg["game"]["seed"] = r.range(2, 10 ** 6)
         yield "generated", f"random-agent+nmap+db+web-{i}", cfg, gen_ops(r, _n_actions(cfg), ctx.scale(8, 14), cfg["game"]["seed"], ctx.scale(0, 1),
-                                                                         short=not ctx.thorough)
+                                                                         short=(not ctx.thorough and not stochastic))
 
 
-def variants(ctx: Ctx, rng: Rng, cfg: Optional[Dict] = None, n_extra: int = 0) -> Tuple[List[Dict], Dict]:
-    """The interpreters of a case: PYTHONHASHSEED values chosen so that the scenario's string vocabularies come out of a set in
-    pairwise different orders (xproc.pick_hashseeds), logging fully on / fully off."""
-    n = 3 + (1 if ctx.thorough else 0) + n_extra
-    cands = [1] + [rng.range(2, 4_000_000_000) for _ in range(ctx.scale(7, 11) + 2 * n_extra)]
+def choose_hashseeds(ctx: Ctx, rng: Rng, cfgs: List[Dict], n: int) -> Tuple[List[int], Dict]:
+    """The PYTHONHASHSEED values of the run's interpreters: chosen so that the string vocabularies of ALL the cases (every list of
+    strings in the configs, host names, addresses) come out of a set in pairwise different orders (xproc.pick_hashseeds)."""
+    cands = [1] + [rng.range(2, 4_000_000_000) for _ in range(ctx.scale(9, 13))]
     if ctx.thorough:
         cands.insert(1, 0)  # hashing disabled
-    info: Dict[str, int] = {}
-    if cfg is not None:
-        seeds, info = xproc.pick_hashseeds(xproc.string_vocabularies(cfg), n, cands)
-    else:
-        seeds = cands[:n]
-    # worker 0 starts fresh; the others have a PROCESS HISTORY (xproc: warm-ups played in the same interpreter before the case)
+    vocabs: List[List[str]] = []
+    seen = set()
+    for cfg in cfgs:
+        for v in xproc.string_vocabularies(cfg, cap=24):
+            if tuple(v) not in seen and len(vocabs) < 400:
+                seen.add(tuple(v))
+                vocabs.append(v)
+    return xproc.pick_hashseeds(vocabs, n, cands)
+
+
+def variants(seeds: List[int]) -> List[Dict]:
+    """The interpreters of a case: worker 0 starts fresh; the others have a PROCESS HISTORY (xproc: warm-ups played in the same
+    interpreter before the case); logging fully on / fully off alternates."""
     hist = [[], [0], [1, 0], [1], [0, 1], [], [0]]
-    return [{"hashseed": hs, "loud": (i % 2 == 1), "warm": hist[i % len(hist)]} for i, hs in enumerate(seeds)], info
+    return [{"hashseed": hs, "loud": (i % 2 == 1), "warm": hist[i % len(hist)]} for i, hs in enumerate(seeds)]
 
 
 def episodes_of(lines: List[str]) -> List[List[str]]:
@@ -461,7 +467,8 @@ def check_case(name: str, variant: str, cfg: Dict, ops: List[Any], vs: List[Dict
     t_case = _time.time()
     warm = warm or []
     vs = [dict(v, warm=[i for i in (v.get("warm") or []) if i < len(warm)]) for v in vs]
-    res = xproc.run_workers({"cfg": cfg, "ops": ops, "warm": warm}, vs, REPO, VERIF)
+    res = xproc.run_workers({"cfg": cfg, "ops": ops, "warm": warm}, vs, REPO, VERIF,
+                            servers=None if name.startswith("corpus:") else SERVERS)  # corpus witnesses: fresh interpreters, stored variants
     CASE_WALL.append((f"{name}/{variant}", round(_time.time() - t_case, 1)))
     viol: List[dict] = []
     cnt = {"workers": len(res), "lines": 0, "raised": 0}
@@ -528,7 +535,7 @@ def f9_cfg(bandwidth: Optional[float]) -> Dict:
 
 def f9_try(bandwidth: float, pin_a: Dict, pin_b: Dict) -> Optional[dict]:
     cfg = f9_cfg(bandwidth)
-    r = xproc.run_workers({"cfg": cfg, "ops": [1, 1]}, [{"hashseed": 1, "pin": pin_a}, {"hashseed": 1, "pin": pin_b}], REPO, VERIF)
+    r = xproc.run_workers({"cfg": cfg, "ops": [1, 1]}, [{"hashseed": 1, "pin": pin_a}, {"hashseed": 1, "pin": pin_b}], REPO, VERIF, servers=SERVERS)
     a, b = r[0][1], r[1][1]
     d = xproc.first_diff(a, b)
     if d is None or not a or not b:
@@ -541,7 +548,7 @@ def f9_search(pin_a: Dict, pin_b: Dict) -> Optional[dict]:
     """Measure the step's link load under both pins on an uncongested link, then put the bandwidth between m frames of the one
     size and m frames of the other, for the m at which the busiest admission test sits."""
     r = xproc.run_workers({"cfg": f9_cfg(None), "ops": [1, 1], "probe": {"link_loads": True}},
-                          [{"hashseed": 1, "pin": pin_a}, {"hashseed": 1, "pin": pin_b}], REPO, VERIF)
+                          [{"hashseed": 1, "pin": pin_a}, {"hashseed": 1, "pin": pin_b}], REPO, VERIF, servers=SERVERS)
     try:
         la = float.fromhex(json.loads(r[0][1][-1])["probe"]["link_loads"][0])
         lb = float.fromhex(json.loads(r[1][1][-1])["probe"]["link_loads"][0])
@@ -727,7 +734,9 @@ def probe_rig(ctx: Ctx):
         else envrig.with_proxy(copy.deepcopy(sites.ONE_NODE))
     cfg.setdefault("game", {})["seed"] = 5
     vs = [{"hashseed": 1}, {"hashseed": rng.range(2, 4_000_000_000)}, {"hashseed": rng.range(2, 4_000_000_000)}]
-    res = xproc.run_workers({"cfg": cfg, "ops": [0], "probe": probe}, vs, REPO, VERIF)
+    if SERVERS is not None and len(SERVERS.procs) >= 3:
+        vs = [{"hashseed": h} for h in list(SERVERS.procs)[:3]]  # the run's interpreters (chosen for pairwise different set orders)
+    res = xproc.run_workers({"cfg": cfg, "ops": [0], "probe": probe}, vs, REPO, VERIF, servers=SERVERS)
     base = res[0][1]
     ok = bool(base) and base[-1].startswith('{"probe"')
     for v, lines, err in res[1:]:
@@ -879,15 +888,38 @@ def run(ctx: Ctx):
                                                            for b in ("lemma", "mechanical", "trusted", "openFinding")},
                                  "by_reading_only": 0}
     ctx.cov["rule"] = ("cross-process cases = (scenario, action map, operation list = episode with the configured seed c | reset(c) B | reset(0) B | "
-                       "reset(0) B | reset(1) B | reset(2^32-1) B | reset(1) B | reset(2^32-1) B | … | reset() C) x 3-5 fresh interpreters (PYTHONHASHSEED "
-                       "values chosen so that the scenario's string vocabularies leave a set in pairwise different orders; logging all on / all off); "
+                       "reset(c) B | reset(0) B | reset(1) B | reset(2^32-1) B | reset(1) B | reset(2^32-1) B | … | reset() C) x 3-4 interpreters: one fork "
+                       "server per PYTHONHASHSEED value imports the code once and forks a child per case (fresh post-import state, own session directory); "
+                       "the hash seeds are chosen so that the cases' string vocabularies leave a set in pairwise different orders; worker 0 starts fresh, "
+                       "the others first build / step / reset / close other scenarios in the same process (process history); logging all on / all off; "
+                       "corpus witnesses run in separately started interpreters with their stored variants; "
                        "every compared line (one per step/reset, plus complete histories and generator digests per episode) is one evaluation; "
                        "non-trivial = step lines whose RL action is not do-nothing or in which some scripted agent acted; component cases = one driver "
                        "line each (non-trivial = at least two elements); distinct by canonical JSON")
     # -- corpus first: the F-8 witness must no longer differ
     mark("inventory")
+    global SERVERS
+    gen_cases = list(cases(ctx))
+    n_workers = 3 + (1 if ctx.thorough else 0)
+    seeds, hs_info = choose_hashseeds(ctx, ctx.rng.fork("variants"), [c[2] for c in gen_cases], n_workers)
+    ctx.cov["hashseed_selection"] = {"seeds": seeds, **hs_info}
+    SERVERS = xproc.Servers(REPO, VERIF)
+    starter = cf.ThreadPoolExecutor(1)
+    started = starter.submit(SERVERS.start, seeds)  # the imports of the fork servers overlap with the component rig
+    mark("case-generation+hashseed-selection")
+    try:
+        _run_rigs(ctx, gen_cases, seeds, started, proved, new_sites, mark)
+    finally:
+        SERVERS.close()
+        SERVERS = None
+        starter.shutdown(wait=False)
+
+
+def _run_rigs(ctx: Ctx, gen_cases, seeds: List[int], started, proved: bool, new_sites: List[Tuple], mark) -> None:
     site_rig(ctx)
     mark("site-rig")
+    started.result()
+    mark("fork-servers-ready")
     all_cases = []
     shipped = scen.shipped()
     for f in sorted((VERIF / "corpus" / "C03").glob("xproc_*.json")):
@@ -899,19 +931,12 @@ def run(ctx: Ctx):
             cfg = _small_scan(envrig.with_proxy(scen.load_cfg(shipped[c["scenario"]]))) if "scenario" in c else c["cfg"]
         cfg.setdefault("game", {}).setdefault("seed", c.get("seed", 7))
         all_cases.append(("corpus:" + f.name, c.get("variant", "-"), cfg, c["ops"], c["variants"]))
-    vr = ctx.rng.fork("variants")
-    hs_info: Dict[str, int] = {"vocabularies": 0, "distinguished": 0, "pairwise_all_differ": 0}
     wr = ctx.rng.fork("warm")
-    for name, variant, cfg, ops in cases(ctx):
-        vs, info = variants(ctx, vr, cfg)
-        for k in hs_info:
-            hs_info[k] += info.get(k, 0)
-        all_cases.append((name, variant, cfg, ops, vs, warm_specs(cfg, wr.fork(name + variant))))
-    ctx.cov["hashseed_selection"] = hs_info
+    for name, variant, cfg, ops in gen_cases:
+        all_cases.append((name, variant, cfg, ops, variants(seeds), warm_specs(cfg, wr.fork(name + variant))))
     # corpus witnesses first, then the generated cases longest first (uc7 takes several times longer than the small scenarios)
     n_corpus = sum(1 for c in all_cases if c[0].startswith("corpus:"))
     all_cases = all_cases[:n_corpus] + sorted(all_cases[n_corpus:], key=lambda c: -len(c[3]) * len(_yaml(c[2])))
-    mark("case-generation+hashseed-selection")
     with cf.ThreadPoolExecutor(2) as ex0:
         f9_future = ex0.submit(f9_compute)        # the known finding is replayed alongside
         probe_future = ex0.submit(probe_rig, ctx)  # and so are the stand-alone site probes (three interpreters)
@@ -935,9 +960,10 @@ def run(ctx: Ctx):
     if (not proved or new_sites) and not unlisted:
         extra = []
         sr = ctx.rng.fork("search-variants")
-        for name, variant, cfg, ops in cases(ctx, search=True):
-            vs, _ = variants(ctx, sr, cfg, n_extra=2)
-            extra.append((name, "search:" + variant, cfg, ops, vs, warm_specs(cfg, sr.fork(name + variant))))
+        search_cases = list(cases(ctx, search=True))
+        seeds5, _ = choose_hashseeds(ctx, sr, [c[2] for c in search_cases], len(seeds) + 2)
+        for name, variant, cfg, ops in search_cases:
+            extra.append((name, "search:" + variant, cfg, ops, variants(seeds5), warm_specs(cfg, sr.fork(name + variant))))
         ctx.notes.append(f"search: {len(new_sites)} site(s) not in the committed table ({[s[:3] for s in new_sites][:4]}); "
                          f"ran {len(extra)} further cases with 5 interpreters each")
         run_cases(ctx, extra, tag="search")
